@@ -265,6 +265,20 @@ let lines_main file =
    | Some l -> List.iter (fun tp ->
        Printf.printf "%d %d %d %s\n" (nat_int tp.tp_line) (nat_int tp.tp_phys) (nat_int tp.tp_pending) (hex_of_bytes tp.tp_tok.t_text)) l)
 
+(* macro <file>: tokens after macro expansion, one per line "has_space hex" (C09); or ERR / FUEL / UNSUP *)
+let macro_main file =
+  let ic = open_in_bin file in
+  let n = in_channel_length ic in
+  let s = really_input_string ic n in close_in ic;
+  let bytes = List.init n (fun i -> n_of_int (Char.code s.[i])) in
+  let rec nat_of i = if i = 0 then O else S (nat_of (i - 1)) in
+  (match tokenize punct_table (phases12 (load bytes)) with
+   | LexErr -> print_endline "LEXERR"
+   | LexOk l ->
+     (match pp2 punct_table (nat_of 20000) [] (of_lex l) with
+      | MOk ts -> List.iter (fun t -> Printf.printf "%d %s\n" (if t.m_sp then 1 else 0) (hex_of_bytes t.m_txt)) ts
+      | MErr -> print_endline "ERR" | MFuel -> print_endline "FUEL" | MUnsup -> print_endline "UNSUP"))
+
 (* the punctuator pairs that fuse when printed adjacent (from the proved sweep) *)
 let fusing_main () =
   List.iter (fun (a, b) -> Printf.printf "%s %s\n" (hex_of_bytes a) (hex_of_bytes b)) fusing_pairs
@@ -321,6 +335,7 @@ let () =
   | [_; "driver"] -> driver_main ()
   | [_; "lex"; f] -> lex_main f
   | [_; "lines"; f] -> lines_main f
+  | [_; "macro"; f] -> macro_main f
   | [_; "fusing"] -> fusing_main ()
   | [_; "layout"] -> layout_main ()
   | [_; "declspec-spec"] -> declspec_main ()
